@@ -15,7 +15,8 @@ META = dict(
                 'get_node_restrictions with symbolic design-band edges over all precedence situations; Raman eligibility through the '
                 'real build_network on a two-direction line with tabulated fibre loss around the configured limit',
     bounds=['sub-libraries of 3-4 models (variable gain, fixed gain, dual stage/Raman hybrid)', 'gain in [0, 45] dB, power in [-10, 30] dBm, '
-            'allowance in [0, 6] dB', 'exact capability boundaries excluded (strict inequalities as in the statement)'],
+            'allowance in [0, 6] dB', 'exact capability boundaries excluded (strict inequalities as in the statement)',
+            'multiband preselection: synthetic library with two groups (gain_flatmax 20 / 30 dB), span loss in [13, 35] dB, total power in [10, 22.9] dBm'],
     assumptions=['floats as reals', 'NF of a candidate at the required gain is the value computed by the real Edfa NF model (verified under C04)',
                  'an amplifier between two restricted ROADMs (booster and preamp lists both present) is not ruled by the statement and is not checked'],
     stubs=[],
